@@ -219,19 +219,7 @@ impl<'a> YamlEmitter<'a> {
         match *node {
             Yaml::Sequence(ref v) => self.emit_sequence(v),
             Yaml::Mapping(ref h) => self.emit_mapping(h),
-            Yaml::Value(Scalar::String(ref v)) => {
-                if self.multiline_strings
-                    && v.contains('\n')
-                    && char_traits::is_valid_literal_block_scalar(v)
-                {
-                    self.emit_literal_block(v)?;
-                } else if need_quotes(v) {
-                    escape_str(self.writer, v)?;
-                } else {
-                    write!(self.writer, "{v}")?;
-                }
-                Ok(())
-            }
+            Yaml::Value(Scalar::String(ref v)) => self.emit_string(v, true),
             Yaml::Value(Scalar::Boolean(v)) => {
                 if v {
                     self.writer.write_str("true")?;
@@ -276,6 +264,36 @@ impl<'a> YamlEmitter<'a> {
             // XXX(chenyh) Alias
             Yaml::Alias(_) => Ok(()),
         }
+    }
+
+    /// Emit a string, as a literal block if allowed and possible, else plain or double-quoted.
+    fn emit_string(&mut self, v: &str, allow_literal_block: bool) -> EmitResult {
+        if allow_literal_block && self.multiline_strings && self.can_be_literal_block(v) {
+            self.emit_literal_block(v)?;
+        } else if need_quotes(v) {
+            escape_str(self.writer, v)?;
+        } else {
+            write!(self.writer, "{v}")?;
+        }
+        Ok(())
+    }
+
+    /// Check whether [`Self::emit_literal_block`] would emit a block that reads back as `v`.
+    fn can_be_literal_block(&self, v: &str) -> bool {
+        let at_root = self.level < 0;
+        v.contains('\n')
+            && char_traits::is_valid_literal_block_scalar(v)
+            // The indentation is detected from the first line, which must thus have content that
+            // does not start with a space.
+            && !v.starts_with([' ', '\n'])
+            // We only emit `|` and `|-`, which keep at most one trailing line break.
+            && !v.ends_with("\n\n")
+            // A root scalar is not indented: its lines must not look like document markers and
+            // its first line must not start with a tab.
+            && !(at_root
+                && (v.starts_with('\t')
+                    || v.lines()
+                        .any(|line| line.starts_with("---") || line.starts_with("..."))))
     }
 
     fn emit_literal_block(&mut self, v: &str) -> EmitResult {
@@ -335,7 +353,7 @@ impl<'a> YamlEmitter<'a> {
                     write!(self.writer, ":")?;
                     self.emit_val(true, v)?;
                 } else {
-                    self.emit_node(k)?;
+                    self.emit_key(k)?;
                     write!(self.writer, ":")?;
                     self.emit_val(false, v)?;
                 }
@@ -349,6 +367,14 @@ impl<'a> YamlEmitter<'a> {
     /// following a ":" or "-", either after a space, or on a new line.
     /// If `inline` is true, then the preceding characters are distinct
     /// and short enough to respect the compact flag.
+    /// Emit a scalar mapping key. Keys are never emitted as literal blocks.
+    fn emit_key(&mut self, key: &Yaml) -> EmitResult {
+        match key {
+            Yaml::Value(Scalar::String(s)) => self.emit_string(s, false),
+            _ => self.emit_node(key),
+        }
+    }
+
     fn emit_val(&mut self, inline: bool, val: &Yaml) -> EmitResult {
         match *val {
             Yaml::Sequence(ref v) => {
